@@ -4,8 +4,8 @@ import z3
 from . import sym, arr, run, interp as _interp
 from .sym import (SV, Unsupported, PyRaise, PathEnd, Infeasible, ite, and_, or_, not_, implies, vmax, vmin,
                   absv, sqrt, cbrt, exp, log, power, cmp, to_real, zterm, zbool, wrap)
-from .arr import Arr, ArrBase, View, Masked, NP, Opaque, to_arr
-from .run import real, integer, boolean, array, fp64, new_obj, snapshot, unchanged, frame, forall, exists, steps, symbolise, Run
+from .arr import Arr, ArrBase, View, Masked, MaskedRows, NP, Opaque, to_arr
+from .run import real, integer, boolean, array, fp64, ufunc, new_obj, snapshot, unchanged, frame, forall, exists, steps, symbolise, Run
 from .interp import Interp, Obj, Cls, Func, BoundMethod, LoopSpec, EnumMember
 
 
